@@ -70,44 +70,63 @@ func runListenStop(o Opts) error {
 		}
 		wg.Wait()
 	}
-	for _, block := range []time.Duration{200 * time.Millisecond, 1500 * time.Millisecond} {
-		port := freeUDPPort()
-		bind := types.BindAddrFrom(netip.IPv4Unspecified(), 0)
-		listen := types.ListenAddrFrom(netip.AddrFrom4([4]byte{127, 0, 0, 1}), uint16(port))
-		u := uhppote.NewUHPPOTE(bind, types.BroadcastAddr{}, listen, 500*time.Millisecond, nil, false)
-		l := &slowListener{block: block}
-		q := make(chan os.Signal, 1)
-		done := make(chan error, 1)
-		go func() { done <- u.Listen(l, q) }()
-		time.Sleep(100 * time.Millisecond)
-		c, err := net.DialUDP("udp4", nil, &net.UDPAddr{IP: net.IPv4(127, 0, 0, 1), Port: port})
-		if err != nil {
-			return err
-		}
-		for i := 0; i < 3; i++ {
-			ev := farmReply(append([]byte{0x17, 0x20, 0, 0, 1, 2, 3, byte(4 + i), byte(i + 1)}, make([]byte, 55)...))
-			c.Write(ev)
-		}
-		time.Sleep(50 * time.Millisecond)
-		q <- syscall.SIGINT
-		select {
-		case <-done:
-		case <-time.After(block + 3*time.Second):
-			fmt.Println("LISTENSTOP: Listen did not return within 3 s of the slow callback finishing")
-			os.Exit(3)
-		}
-		c.Close()
-		time.Sleep(block + 300*time.Millisecond) // let the callback and the library goroutines finish
-		// the event the reader had already taken from the socket while the first callback was busy is delivered too
-		// (the third may still have been in the socket when it was closed)
-		if l.events < 2 {
-			fmt.Printf("LISTENSTOP: %d of the events read before the stop signal were delivered (callback busy for %v)\n", l.events, block)
-			os.Exit(4)
-		}
+	// the scenarios below run side by side (each on its own port); the longest callback is busy for 5.5 s (thorough: 35 s)
+	var scen sync.WaitGroup
+	blocks := []time.Duration{200 * time.Millisecond, 1500 * time.Millisecond, 5500 * time.Millisecond}
+	if o.Tier == "thorough" {
+		blocks = append(blocks, 35*time.Second)
+	}
+	for _, block := range blocks {
+		block := block
+		scen.Add(1)
+		go func() {
+			defer scen.Done()
+			port := freeUDPPort()
+			bind := types.BindAddrFrom(netip.IPv4Unspecified(), 0)
+			listen := types.ListenAddrFrom(netip.AddrFrom4([4]byte{127, 0, 0, 1}), uint16(port))
+			u := uhppote.NewUHPPOTE(bind, types.BroadcastAddr{}, listen, 500*time.Millisecond, nil, false)
+			l := &slowListener{block: block}
+			q := make(chan os.Signal, 1)
+			done := make(chan error, 1)
+			go func() { done <- u.Listen(l, q) }()
+			time.Sleep(100 * time.Millisecond)
+			c, err := net.DialUDP("udp4", nil, &net.UDPAddr{IP: net.IPv4(127, 0, 0, 1), Port: port})
+			if err != nil {
+				fmt.Println("LISTENSTOP: harness: ", err)
+				os.Exit(9)
+			}
+			sent := time.Now()
+			for i := 0; i < 3; i++ {
+				ev := farmReply(append([]byte{0x17, 0x20, 0, 0, 1, 2, 3, byte(4 + i), byte(i + 1)}, make([]byte, 55)...))
+				c.Write(ev)
+			}
+			time.Sleep(50 * time.Millisecond)
+			q <- syscall.SIGINT
+			select {
+			case <-done:
+			case <-time.After(block + 3*time.Second):
+				fmt.Println("LISTENSTOP: Listen did not return within 3 s of the slow callback finishing")
+				os.Exit(3)
+			}
+			c.Close()
+			time.Sleep(time.Until(sent.Add(block + 400*time.Millisecond))) // let the callback and the library goroutines finish
+			// the event the reader had already taken from the socket while the first callback was busy is delivered too
+			// (the third may still have been in the socket when it was closed)
+			if l.events < 2 {
+				fmt.Printf("LISTENSTOP: %d of the events read before the stop signal were delivered (callback busy for %v)\n", l.events, block)
+				os.Exit(4)
+			}
+			if l.errors != 0 {
+				fmt.Printf("LISTENSTOP: %d error callbacks for valid events that had to wait for a callback busy for %v\n", l.errors, block)
+				os.Exit(4)
+			}
+		}()
 	}
 	// a burst of valid events while the application's first callback is busy: they wait (in the socket) and are all
 	// delivered, once each and in order, with no error callback
-	{
+	scen.Add(1)
+	go func() {
+		defer scen.Done()
 		const N = 150
 		port := freeUDPPort()
 		listen := types.ListenAddrFrom(netip.AddrFrom4([4]byte{127, 0, 0, 1}), uint16(port))
@@ -119,7 +138,8 @@ func runListenStop(o Opts) error {
 		time.Sleep(100 * time.Millisecond)
 		c, err := net.DialUDP("udp4", nil, &net.UDPAddr{IP: net.IPv4(127, 0, 0, 1), Port: port})
 		if err != nil {
-			return err
+			fmt.Println("LISTENSTOP: harness: ", err)
+			os.Exit(9)
 		}
 		for i := 0; i < N; i++ {
 			ev := farmReply(append([]byte{0x17, 0x20, 0, 0, 1, 2, 3, 4, byte(i + 1), 0, 0, 0, 1}, make([]byte, 51)...))
@@ -150,7 +170,8 @@ func runListenStop(o Opts) error {
 			fmt.Printf("LISTENSTOP: of %d valid events sent while the first callback was busy, %d were delivered (in order: %v) and %d error callbacks were made\n", N, l.events, inOrder, l.errors)
 			os.Exit(4)
 		}
-	}
+	}()
+	scen.Wait()
 	// a Listen that cannot start (port 0, port in use) returns an error - it neither panics nor leaves goroutines behind
 	occupied, err := net.ListenUDP("udp4", &net.UDPAddr{IP: net.IPv4(127, 0, 0, 1)})
 	if err == nil {
@@ -187,7 +208,7 @@ func runListenStop(o Opts) error {
 //	noerror - Listen on an unusable port returned nil   (C10)
 //	leak    - goroutines left behind by failed starts   (C09)
 func listenStopChild(s *Sink, concerns ...string) {
-	cmd := exec.Command(os.Args[0], "LISTENSTOP")
+	cmd := exec.Command(os.Args[0], "LISTENSTOP", "-tier", runTier)
 	var out bytes.Buffer
 	cmd.Stdout, cmd.Stderr = &out, &out
 	done := make(chan error, 1)
@@ -200,7 +221,7 @@ func listenStopChild(s *Sink, concerns ...string) {
 	hung := false
 	select {
 	case err = <-done:
-	case <-time.After(30 * time.Second):
+	case <-time.After(map[bool]time.Duration{false: 30 * time.Second, true: 90 * time.Second}[runTier == "thorough"]):
 		cmd.Process.Signal(syscall.SIGKILL)
 		hung = true
 	}
